@@ -76,3 +76,146 @@ Theorem C08_legacy_dotdot_fs :
   normpath (legacy_get_path LFs R_U1 [46;46;47;117;50]%N) = [[114]; [117;50]]%N.
 Proof. exact legacy_dotdot_fs. Qed.
 Print Assumptions C08_legacy_dotdot_fs.
+
+(* ---- the tie to the source by translation.  Namespace/LayoutGen.v is
+   generated from pymap/backend/maildir/layout.py by
+   harness/translate_layout.py on every run; [gen_valid_part], [gen_split],
+   [gen_join], [gen_parts_path], [gen_get_path] select the DefaultLayout /
+   FilesystemLayout instance of the generated function (LayoutSpec.v),
+   [gen_delimiter] is MailboxSet.delimiter. *)
+From PV Require Import Namespace.PyStr Namespace.LayoutGen Namespace.LayoutSpec
+     Namespace.LayoutGenProofs.
+
+(* the part guard _valid_part of the code, for every string, is the guard
+   [valid_part] that C08_get_path_confined / C08_confined (and C11) assume *)
+Theorem C08_generated_guard_agrees : forall l part,
+  gen_valid_part l part = valid_part l part.
+Proof. exact gen_valid_part_agrees. Qed.
+Print Assumptions C08_generated_guard_agrees.
+
+(* _split(name, '/') of the code = the model's lsplit followed by the length
+   guard (more than 250 UTF-8 bytes -> NotSupportedError); os.fsencode never
+   raises here *)
+Theorem C08_generated_split_agrees : forall l n,
+  gen_split l n gen_delimiter = to_res (lsplit_len l n).
+Proof. exact gen_split_agrees. Qed.
+Print Assumptions C08_generated_split_agrees.
+
+(* a name the code accepts is accepted by the hand model with the same parts;
+   conversely for names of at most 250 UTF-8 bytes *)
+Theorem C08_generated_split_refines : forall l n ps,
+  gen_split l n gen_delimiter = PRet ps -> lsplit l n = Some ps.
+Proof. exact gen_split_refines. Qed.
+Print Assumptions C08_generated_split_refines.
+
+Theorem C08_generated_split_complete : forall l n ps,
+  (utf8_len n <= 250)%N -> lsplit l n = Some ps -> gen_split l n gen_delimiter = PRet ps.
+Proof. exact gen_split_complete. Qed.
+Print Assumptions C08_generated_split_complete.
+
+(* _join, _get_subdir, _get_parts, _get_path, get_path of the code are the
+   model's functions *)
+Theorem C08_generated_join_agrees : forall l parts, gen_join l parts gen_delimiter = ljoin parts.
+Proof. exact gen_join_agrees. Qed.
+Print Assumptions C08_generated_join_agrees.
+
+Theorem C08_generated_subdir_agrees : forall parts,
+  gen_Default__get_subdir parts = get_subdir parts
+  /\ gen_Default__get_parts (gen_Default__get_subdir parts) = get_parts (get_subdir parts).
+Proof. exact gen_subdir_parts_agree. Qed.
+Print Assumptions C08_generated_subdir_agrees.
+
+Theorem C08_generated_paths_agree : forall l root parts,
+  gen_parts_path l root parts = get_path l root parts.
+Proof. exact gen_parts_path_agrees. Qed.
+Print Assumptions C08_generated_paths_agree.
+
+Theorem C08_generated_get_path_agrees : forall l root n,
+  gen_get_path l root n gen_delimiter =
+  match lsplit_len l n with
+  | Some parts => PRet (get_path l root parts)
+  | None => PNotSupported
+  end.
+Proof. exact gen_get_path_agrees. Qed.
+Print Assumptions C08_generated_get_path_agrees.
+
+(* confinement stated directly over the generated code: whatever path
+   layout.get_path(name, '/') returns for a name other than INBOX normalises
+   to the user's directory plus at least one component *)
+Theorem C08_generated_get_path_confined : forall l rc n p,
+  root_ok rc -> n <> INBOX ->
+  gen_get_path l (root_str rc) n gen_delimiter = PRet p ->
+  strictly_inside rc (normpath p).
+Proof. exact gen_get_path_confined. Qed.
+Print Assumptions C08_generated_get_path_confined.
+
+Theorem C08_generated_example :
+  gen_get_path LPlus R_U1 [97;47;98]%N gen_delimiter = PRet [47;114;47;117;49;47;46;97;46;98]%N
+  /\ gen_get_path LFs R_U1 [97;47;98]%N gen_delimiter = PRet [47;114;47;117;49;47;97;47;98]%N
+  /\ gen_get_path LFs R_U1 [46;46;47;117;50]%N gen_delimiter = PNotSupported.
+Proof. exact gen_get_path_example. Qed.
+Print Assumptions C08_generated_example.
+
+(* the name _join gives back for the parts _split made of a name is that name;
+   the parts _get_parts reads back from the directory name _get_subdir made of
+   valid parts are those parts (what list_folders relies on) *)
+Theorem C08_generated_join_split : forall l n ps,
+  n <> INBOX -> gen_split l n gen_delimiter = PRet ps -> gen_join l ps gen_delimiter = n.
+Proof. exact gen_join_split. Qed.
+Print Assumptions C08_generated_join_split.
+
+Theorem C08_generated_parts_subdir : forall ps,
+  ps <> [] -> Forall (fun p => valid_part LPlus p = true) ps ->
+  gen_Default__get_parts (gen_Default__get_subdir ps) = ps.
+Proof. exact gen_parts_subdir. Qed.
+Print Assumptions C08_generated_parts_subdir.
+
+(* ---- the effectful functions.  Namespace/LayoutFxGen.v is generated from
+   remove_folder, _can_remove, _add_folder, rename_folder, _rename_folder of
+   layout.py by harness/translate_layout_fx.py: the list of everything the
+   function can hand to the filesystem (TRead / TMut / TMutTree), for a
+   directory listing function [listdir] (any function: os.listdir at any
+   moment), with filesystem-dependent conditions taken both ways. *)
+From PV Require Import Namespace.PyFs Namespace.LayoutFxGen Namespace.LayoutFxProofs.
+
+(* DELETE's remove_folder: whatever the listings are, every path it can hand to
+   the filesystem is inside the user's directory and every mutation strictly
+   inside (never the directory itself) *)
+Theorem C08_generated_remove_confined : forall l rc listdir n ts,
+  root_ok rc -> clean_listing listdir -> n <> INBOX ->
+  fx_remove_folder l listdir (root_str rc) n gen_delimiter = PRet ts ->
+  Forall (touch_ok rc) ts.
+Proof. exact fx_remove_confined. Qed.
+Print Assumptions C08_generated_remove_confined.
+
+(* and what it removes is the model's delete target, the subject of C08_delete_not_root *)
+Theorem C08_generated_remove_targets : forall l listdir root n ts,
+  n <> INBOX -> norm n = n ->
+  fx_remove_folder l listdir root n gen_delimiter = PRet ts ->
+  forall p, In p (mut_paths ts) -> In p (delete_target l root n).
+Proof. exact fx_remove_mutations. Qed.
+Print Assumptions C08_generated_remove_targets.
+
+(* RENAME's rename_folder (superiors checked and created by _add_folder, the
+   directories renamed by either layout's _rename_folder, '++': one per listed
+   directory that is the source or below it) *)
+Theorem C08_generated_rename_confined : forall l rc listdir a b ts,
+  root_ok rc -> clean_listing listdir -> a <> INBOX -> b <> INBOX ->
+  fx_rename_folder l listdir (root_str rc) a b gen_delimiter = PRet ts ->
+  Forall (touch_ok rc) ts.
+Proof. exact fx_rename_confined. Qed.
+Print Assumptions C08_generated_rename_confined.
+
+Theorem C08_generated_fs_rename_targets : forall listdir root a b pa pb,
+  a <> INBOX -> norm a = a -> rename_dest b = inl b ->
+  lsplit LFs a = Some pa -> lsplit LFs b = Some pb ->
+  mut_paths (fx_Fs__rename_folder listdir root pa pb) = rename_targets LFs root a b.
+Proof. exact fx_fs_rename_targets. Qed.
+Print Assumptions C08_generated_fs_rename_targets.
+
+(* CREATE's _add_folder *)
+Theorem C08_generated_add_confined : forall l rc listdir parts,
+  root_ok rc -> parts <> [] /\ Forall (fun p => valid_part l p = true) parts ->
+  Forall (touch_ok rc) (fx_add_folder l listdir (root_str rc) parts).
+Proof. exact add_folder_ok. Qed.
+Print Assumptions C08_generated_add_confined.
